@@ -24,9 +24,9 @@ func findDuplicateSlot(slots []*SlotStmt) (string, int) {
 	}
 
 	// find the first slot name that has a count greater than 1
-	for name, times := range counts {
-		if times > 1 {
-			return name, times
+	for _, slot := range slots {
+		if times := counts[slot.Name.Value]; times > 1 {
+			return slot.Name.Value, times
 		}
 	}
 
